@@ -208,6 +208,14 @@ class World:
         return L()
 
     def _loss_option(self, tomo, mode):
+        # option objects are values: one object per (tomography, mode) serves every estimation of this world, the way a
+        # simulation re-uses its loss option for every repetition
+        cache = self.__dict__.setdefault("_option_cache", {})
+        if (tomo, mode) not in cache:
+            cache[(tomo, mode)] = self._make_loss_option(tomo, mode)
+        return cache[(tomo, mode)]
+
+    def _make_loss_option(self, tomo, mode):
         if self.family == "se_fast":
             from quara.loss_function.standard_qtomography_based_weighted_probability_based_squared_error import StandardQTomographyBasedWeightedProbabilityBasedSquaredErrorOption as O
         elif self.family == "re_fast":
